@@ -143,6 +143,9 @@ mod tally;
 pub mod templates;
 pub mod wallet;
 
+#[cfg(feature = "verif")]
+pub mod verif;
+
 type Result<T = (), E = Error> = std::result::Result<T, E>;
 type SnafuResult<T = (), E = SnafuError> = std::result::Result<T, E>;
 
